@@ -132,6 +132,8 @@ Definition smpp_to_time (s : list Z) : res timeval :=
       do tenth <- opt_res (py_int (slice 12 13 s));
       do nn <- opt_res (py_int (slice 13 15 s));
       let offm := nn * 15 in
+      (* an offset of a day or more is refused: datetime cannot work with it (utcoffset() raises) *)
+      if 1440 <=? Z.abs offm then Err EXN_ValueError else
       let offm := if list_eqb (slice 15 16 s) [45] then - offm else offm in
       (* FixedOffset(minutes): timedelta(minutes=..) overflows beyond 999999999 days *)
       if negb (Z.abs (offm / 1440) <=? 999999999) then Err EXN_OverflowError
